@@ -18,8 +18,25 @@ LEVEL_NOTE = "Not decided: every inequality of the statement; the stableswap min
 PM = "pool_manager"
 ASSUME_CP = VariantEdge("assume ConstantProduct", r"^Store\(POOLS\)\.pool_type$", ["StableSwap"])
 ASSUME_SS = VariantEdge("assume StableSwap", r"^Store\(POOLS\)\.pool_type$", ["ConstantProduct"])
-EMPTY_POOL = PredFalse("assume total_shares == 0", eq_test(r"^Query\(supply\)$", r"^Const\(0\)$"))
-FUNDED_POOL = PredTrue("assume total_shares != 0", eq_test(r"^Query\(supply\)$", r"^Const\(0\)$"))
+def _supply_is_zero(pn, pa):
+    """+1 when the occurrence asserts `supply == 0` (== zero(), is_zero(), <= 0), -1 when it asserts the negation (> 0, 0 < supply)"""
+    sup = lambda v: hasattr(v, "atoms") and exact_origins(v) == {"Query(supply)"}      # noqa: E731
+    zero = lambda v: hasattr(v, "atoms") and bool(all_origins(v)) and all(o.startswith("Const(0") for o in all_origins(v))      # noqa: E731
+    if pn == "is_zero" and pa and sup(pa[0]):
+        return 1
+    if len(pa) > 1 and ((sup(pa[0]) and zero(pa[1])) or (sup(pa[1]) and zero(pa[0]))):
+        first = sup(pa[0])
+        if pn == "eq":
+            return 1
+        if pn in ("gt", "lt"):
+            return -1 if (pn == "gt") == first else 0          # supply > 0  /  0 < supply
+        if pn in ("le", "ge"):
+            return 1 if (pn == "le") == first else 0           # supply <= 0 /  0 >= supply
+    return 0
+
+
+EMPTY_POOL = PredFalse("assume total_shares == 0", _supply_is_zero)
+FUNDED_POOL = PredTrue("assume total_shares != 0", _supply_is_zero)
 NOT_SINGLE = PredTrue("assume multi-asset deposit", eq_test(r"^info\.funds\[\*\]$", r"^Const\(1_usize\)$"))
 FLOORS = {"WHO-mint-burn": 10, "ROUND-withdraw": 1, "PROV-cp-shares": 2}
 
